@@ -1,7 +1,8 @@
 (* C02 - Instances mirror their definition: reference sets and outer pins track all edits.
    Property theorems only. *)
 From Coq Require Import List.
-From SV Require Import Base.Base IR.State IR.NS IR.Ops Proofs.Inv2a Proofs.InvP Proofs.InvW Proofs.C01_full.
+From SV Require Import Base.Base IR.State IR.NS IR.Ops Proofs.Inv2a Proofs.InvP Proofs.InvW Proofs.C01_full Proofs.Repoint.
+Import ListNotations.
 
 (* at every prefix of every history (any ops, arguments, outcomes) ... *)
 Theorem C02_reachable : forall ops, Inv (run ops init).
@@ -39,11 +40,39 @@ Theorem C02_reference_sets_step : forall s o,
 Proof. exact step_inv2a. Qed.
 Print Assumptions C02_reference_sets_step.
 
-(* Not yet a theorem: "re-pointing an instance to a shape-compatible definition keeps every
-   connection on the corresponding pin" (position-wise statement about rekey); it is checked on the
-   implementation by the MirrorPins oracle and by the correspondence of instance pin maps. *)
-Definition C02_repoint_full : Prop := forall s x d d' k,
+(* re-pointing an instance to a shape-compatible definition keeps every connection on the
+   corresponding pin: the outer pin for the k-th pin of the new definition reports the wire the outer
+   pin for the k-th pin of the old definition reported; every other pin reports what it reported;
+   and every wire lists the same pins at the same positions, each outer pin of the instance replaced
+   by its counterpart *)
+Theorem C02_repoint_full : forall s x d d' k,
   Inv s -> iref s x = Some d -> same_shape s d d' = true ->
   snd (op_set_reference s x (Some d')) = None ->
   forall c n, nth_error (pin_pairs s d d') k = Some (c, n) ->
   pin_wire (fst (op_set_reference s x (Some d'))) (POut x n) = pin_wire s (POut x c).
+Proof.
+  intros s x d d' k HI Hr Hs Hn c n Hk.
+  apply (proj1 (repoint_spec s x d d' HI Hr Hs Hn)). apply (nth_error_In _ _ Hk).
+Qed.
+Print Assumptions C02_repoint_full.
+
+Theorem C02_repoint_wires : forall s x d d',
+  Inv s -> iref s x = Some d -> same_shape s d d' = true ->
+  snd (op_set_reference s x (Some d')) = None ->
+  (forall q, (forall i, q <> POut x i) ->
+     pin_wire (fst (op_set_reference s x (Some d'))) q = pin_wire s q) /\
+  (forall w, wpins (fst (op_set_reference s x (Some d'))) w =
+             map (repoint_pin x (pin_pairs s d d')) (wpins s w)).
+Proof. intros s x d d' HI Hr Hs Hn. apply (proj2 (repoint_spec s x d d' HI Hr Hs Hn)). Qed.
+Print Assumptions C02_repoint_wires.
+
+(* non-vacuity: in the sample history the instance 5 (of definition 0, outer pin for inner pin 2
+   on wire 7) is re-pointed to a second two-pin definition; its first outer pin stays on wire 7 *)
+Example C02_repoint_sample :
+  let ops := sample_ops ++ [ONew KDefinition None []; OCreate RPorts 8 None [] 2 None] in
+  let s := run ops init in
+  same_shape s 0 8 = true /\ snd (op_set_reference s 5 (Some 8)) = None /\
+  pin_pairs s 0 8 = [(2, 10); (3, 11)] /\
+  pin_wire (fst (op_set_reference s 5 (Some 8))) (POut 5 10) = Some 7 /\
+  wpins (fst (op_set_reference s 5 (Some 8))) 7 = [POut 5 10; PIn 3].
+Proof. vm_compute. repeat split. Qed.
